@@ -175,6 +175,41 @@ pub fn alphabet(vs: bool, l: &LCfg) -> Vec<Hostile> {
         put_var(&mut p, 60);
         put_var(&mut p, 0);
         v.push(raw("ACK gap underflow", p, &[FENC]));
+        // ACK ranges descending to packet number 0 and just below it: every (largest, first range,
+        // gap, length[, gap, length]) whose last range would end at 0, -1, -2 or -3
+        for largest in [1i64, 2, 3, 4, 6] {
+            for first in [0i64, 1] {
+                for gap in [0i64, 1] {
+                    for len in [0i64, 1, 2] {
+                        let end = largest - first - gap - 2 - len;
+                        if (-3..=0).contains(&end) && first <= largest {
+                            let mut p = vec![0x02];
+                            put_var(&mut p, largest as u64);
+                            put_var(&mut p, 0);
+                            put_var(&mut p, 1);
+                            put_var(&mut p, first as u64);
+                            put_var(&mut p, gap as u64);
+                            put_var(&mut p, len as u64);
+                            v.push(raw(&format!("ACK largest={largest} first={first} gap={gap} len={len} (last range ends at {end})"), p, &[FENC, PV]));
+                        }
+                        // a third range right after a second one that ends at 1 or 0
+                        let end2 = end - 2;
+                        if end >= 0 && end <= 1 && first <= largest {
+                            let mut p = vec![0x02];
+                            put_var(&mut p, largest as u64);
+                            put_var(&mut p, 0);
+                            put_var(&mut p, 2);
+                            put_var(&mut p, first as u64);
+                            put_var(&mut p, gap as u64);
+                            put_var(&mut p, len as u64);
+                            put_var(&mut p, 0);
+                            put_var(&mut p, 0);
+                            v.push(raw(&format!("ACK largest={largest} first={first} gap={gap} len={len} + (gap 0, len 0) (last range ends at {end2})"), p, &[FENC, PV]));
+                        }
+                    }
+                }
+            }
+        }
         // ACK announcing 2^40 ranges, truncated
         let mut p = vec![0x02];
         put_var(&mut p, 5);
